@@ -29,7 +29,7 @@ def host_of(f):
 def growth_sites(W):
     out = []
     for w in W.writes():
-        if w['kind'] == 'call' and w['callee'] in GROW_FNS and w['ap'].fields() and w['ap'].root[0] in ('arg', 'upvar'):
+        if w['kind'] == 'call' and w['callee'] in GROW_FNS and w['ap'].fields() and (w['ap'].root[0] in ('arg', 'upvar') or (w['ap'].root[0] == 'expr' and w['ap'].root[1].startswith('self'))):
             out.append(w)
     return out
 
